@@ -22,10 +22,24 @@ class Verifier:
     def new_exec(self):
         return Exec(self.repo, self.specs, self.col)
 
-    def verify_target(self, target, props_filter=None):
-        "verify every contract attached to the real function `target`"
+    def units_of(self, target):
+        "independent pieces of work for one target: (contract name, instance) pairs of its verified contracts"
+        out = []
+        for con in self.specs.contracts.get(target, []):
+            if con.opts.get('trusted'):
+                continue
+            for inst in (con.opts.get('instances') or [con.opts.get('instance', 'scaled')]):
+                out.append((con.name, inst))
+        return out
+
+    def verify_target(self, target, props_filter=None, only=None):
+        "verify every contract attached to the real function `target` (only=(contract name, instance): that piece alone)"
         info = self.repo.resolve(target)
         cons = self.specs.contracts.get(target, [])
+        self.only_inst = None
+        if only is not None:
+            cons = [c for c in cons if c.name == only[0] or c.opts.get('trusted')]
+            self.only_inst = only[1]
         if not isinstance(info, FuncInfo):
             for con in cons:
                 self.col.ungenerated(con.props, target, 'bind', 'function %s not found in the working tree' % target)
@@ -46,6 +60,8 @@ class Verifier:
         if _os.environ.get('PYVC_ONLY_INSTANCE'):      # debugging aid: one arithmetic instance only
             insts = [i for i in insts if i == _os.environ['PYVC_ONLY_INSTANCE']] or insts
         n_insts = len(con.opts.get('instances') or [1])
+        if getattr(self, 'only_inst', None) is not None:
+            insts = [i for i in insts if i == self.only_inst]
         for inst, case in itertools.product(insts, itertools.product(*alts)):
             cname = ','.join(case) + ('@' + inst if n_insts > 1 else '')
             self.cur_instance = inst
